@@ -74,6 +74,20 @@ func (e *Env) objectIntegrity(v *spec.Version, upTo string) {
 		}
 	}
 	e.C.Obs = kept
+	// ... and every level's Decode fills in the object it was called on (or a fresh one for a nil receiver) and
+	// returns that same object: a decoder that fills in another object leaves the caller's empty (score 0), one
+	// that dereferences a nil receiver has no score at all
+	before = len(e.C.Obs)
+	for _, l := range all {
+		e.decodeSkeleton(l, v.Name == "v3")
+	}
+	kept = e.C.Obs[:before]
+	for _, o := range e.C.Obs[before:] {
+		if o.Rule == "nil-receiver-decode" {
+			kept = append(kept, o)
+		}
+	}
+	e.C.Obs = kept
 }
 
 func scoreBoiler(e *Env) {
